@@ -224,7 +224,8 @@ func (m *ProtoProducerMessage) FormatMessageReflectCustom(ext, quotes, sep, sign
 		if !fieldValue.IsValid() {
 			if unkField, ok := unkMap[s]; ok {
 				fieldValue = reflect.ValueOf(unkField)
-			} else if !okRenderer { // not a virtual field
+			} else if _, declared := m.formatter.Remap(s); declared || !okRenderer {
+				// a declared protobuf field this flow does not carry, or not a virtual field
 				continue
 			}
 		}
